@@ -94,8 +94,55 @@ def c02(run):
     srcs = hand[:3] + [s for s in core if s["profile"] in ("mix", "nul", "sc", "trail")]
     cases = units.product_unit(run, fd, srcs, flav, tag="flavours", san=True)
     units.trace_unit(run, cases, rng, per_case=16 if q else 32, tag="flavtraces", full_cover=40 if q else 100)
+    _bigtables_unit(run, fd)
     run.assumptions += ["go back end is outside the property (not a documented back end)",
                         "C++ lexer class: no in-memory buffers, no %array (not offered by that interface)"]
+
+
+def _bigtables_unit(run, fd):
+    """rule sets whose tables outgrow 16-bit elements (thousands of keywords next to an identifier rule; many rules accepting in
+    the same states under REJECT): too large for the product check, so the table representations are compared with each other
+    (differential: every configuration must print the same tokens as the others, and none may need an initialiser that does not
+    fit its table's element type)"""
+    import subprocess
+    wd = os.path.join(run.work, "bigtables"); os.makedirs(wd, exist_ok=True)
+    rr = random.Random(77)
+    kw = set()
+    while len(kw) < (900 if run.tier == "quick" else 2600): kw.add("".join(rr.choice("abcdefghijklmnopqrstuvwxyz") for _ in range(rr.randint(5, 8))))
+    kw = sorted(kw)
+    inp = "\n".join(kw[::7] + ["zzzz", kw[3] + "x", kw[-1][:-1]]) + "\n"
+    def spec(nid, rej):
+        return ("%option noyywrap" + (" reject" if rej else "") + "\n%%\n" + "".join('%s  { printf("K%d\\n"); }\n' % (k, i) for i, k in enumerate(kw))
+                + "".join('[a-z]+ { printf("ID%d\\n"); %s }\n' % (j, "REJECT;" if rej and j + 1 < nid else "") for j in range(nid))
+                + ".|\\n ;\n%%\nint main(void) { while (yylex()) ; return 0; }\n")
+    groups = [("keywords", spec(1, False), [[], ["-Cem"], ["-C"], ["-Ce"], ["-Ca"], ["-CF"], ["-CFe"], ["-Cfe"]]),
+              ("acclists", spec(40, True), [[], ["-Cem"], ["-C"], ["-Ca"]])]
+    n = 0
+    for gname, text, cfgs in groups:
+        lp = os.path.join(wd, gname + ".l"); open(lp, "w").write(text)
+        outs = {}
+        for args in cfgs:
+            tag = gname + "".join(args); cp = os.path.join(wd, tag + ".c"); exe = os.path.join(wd, tag)
+            p = subprocess.run([os.path.join(fd, "flex")] + args + ["-o", cp, lp], stdout=subprocess.PIPE, stderr=subprocess.PIPE, text=True, timeout=600)
+            n += 1; run.note_case(dict(k="bigtables", g=gname, a=args))
+            if p.returncode != 0:
+                run.violation("bigtables:refused", "flex %s refuses the large rule set '%s': %s" % (" ".join(args), gname, p.stderr[:300]), dict(args=args), [lp]); continue
+            q_ = subprocess.run(["gcc", "-O0", "-Werror=overflow", "-o", exe, cp], stdout=subprocess.PIPE, stderr=subprocess.STDOUT, text=True, timeout=600)
+            if q_.returncode != 0:
+                run.violation("bigtables:compile", "the scanner flex %s generates for the large rule set '%s' does not compile cleanly (a table initialiser does not fit its element type?): %s"
+                              % (" ".join(args), gname, q_.stdout[:400].replace("\n", " | ")), dict(args=args), [lp]); continue
+            try:
+                r = subprocess.run([exe], input=inp.encode(), stdout=subprocess.PIPE, stderr=subprocess.PIPE, timeout=60)
+                outs[" ".join(args) or "(default)"] = (r.returncode, r.stdout)
+            except subprocess.TimeoutExpired:
+                outs[" ".join(args) or "(default)"] = (-9, b"")
+        vals = list(outs.items())
+        # the reference: what the keyword list itself says (first rule wins over the identifier rule; longest match)
+        for name, (rc, out) in vals:
+            if (rc, out) != vals[0][1] or rc != 0:
+                run.violation("bigtables:differs", "large rule set '%s': flex %s and flex %s give different token streams (exit %s / %s)"
+                              % (gname, vals[0][0], name, vals[0][1][0], rc), dict(a=vals[0][0], b=name), [lp]); break
+    run.unit("bigtables", scanners=n, keywords=len(kw))
 
 
 @check("C04")
